@@ -328,7 +328,29 @@ impl ZoneModel {
     /// Are there, near wall second l, two consecutive transitions closer together than the sum of
     /// their offset changes (so that their gaps/folds overlap on the wall clock)?
     pub fn interacting_near(&self, l: i64, max_abs_off: i64) -> bool {
-        let w = self.transitions_in(l.saturating_sub(3 * max_abs_off + 3), l.saturating_add(3 * max_abs_off + 3));
+        let (lo, hi) = (l.saturating_sub(3 * max_abs_off + 3), l.saturating_add(3 * max_abs_off + 3));
+        let mut w = self.transitions_in(lo, hi);
+        // Rule events at or before the last table transition are not in force, but a lookup that
+        // consults the rule for every wall time after the table sees their gaps/folds too: they
+        // interact with the last table transition in the same way.
+        if let (Some(r), Some(last)) = (&self.rule, self.transitions.last()) {
+            if let Some(d) = &r.dst {
+                let (ylo, yhi) = (year_of_unix(lo.max(-8_000_000_000_000)), year_of_unix(hi.min(8_000_000_000_000)));
+                if yhi - ylo <= 4 {
+                    for y in ylo - 1..=yhi + 1 {
+                        if let Some((s, e)) = r.events(y) {
+                            if s >= lo && s <= hi && s <= last.0 {
+                                w.push((s, r.std.off, d.ty.off));
+                            }
+                            if e >= lo && e <= hi && e <= last.0 {
+                                w.push((e, d.ty.off, r.std.off));
+                            }
+                        }
+                    }
+                    w.sort();
+                }
+            }
+        }
         w.windows(2).any(|p| {
             let d0 = (p[0].2 as i64 - p[0].1 as i64).abs();
             let d1 = (p[1].2 as i64 - p[1].1 as i64).abs();
